@@ -621,5 +621,6 @@ pub fn run(ctx: &Ctx) -> Vec<Eng> {
         "49 x 4 x 5",
     );
     units(&mut e4);
-    vec![e1, e2, e3, e3b, e3c, e3d, e4]
+    let ew = crate::c05::wiring_engine("c10-input-wirings", &[8, 9, 10, 11, 12], 5, budget);
+    vec![e1, e2, e3, e3b, e3c, e3d, e4, ew]
 }
